@@ -88,6 +88,16 @@ def geometry_histories(tier):
                         h = dict(start=start, steps=list(pre) + [st])
                         if nets.build(h, 0) is not None:
                             out.append(h)
+    # pooling windows that span exactly ONE spatial axis (kernel == stride == extent there) while SAME padding really pads along the other one
+    for H, W in ((5, 2), (7, 3), (3, 2), (2, 5), (3, 7), (2, 3), (4, 2), (2, 2), (3, 3)):
+        start = ([1, H, W, 8], "int8")
+        for kh, kw, sh, sw in ((2, 2, 2, 2), (3, 3, 3, 3), (3, 3, 1, 3), (3, 3, 3, 1), (2, 2, 1, 2), (2, 2, 2, 1), (3, 2, 2, 2), (2, 3, 2, 2)):
+            for pad in "SV":
+                for kind in ("maxg", "avgg"):
+                    for pre in ((), ("relu",)):
+                        h = dict(start=start, steps=list(pre) + ["%s.k%dx%d.s%dx%d.%s" % (kind, kh, kw, sh, sw, pad)])
+                        if nets.build(h, 0) is not None:
+                            out.append(h)
     return out
 
 
